@@ -917,7 +917,7 @@ mod real {
         let global: GlobalHandle = Arc::new(tokio::sync::RwLock::new(g));
         let tables: TableHandle = Arc::new(TableManager::new(1));
 
-        let listener = match TcpListener::bind("127.0.0.1:0").await {
+        let listener = match crate::verif_hooks::bind_retry("127.0.0.1:0".parse().unwrap()).await {
             Ok(l) => l,
             Err(e) => {
                 obs.error = Some(format!("bind: {}", e));
